@@ -399,7 +399,9 @@ func (req *IdpAuthnRequest) Validate() error {
 		return err
 	}
 
-	if err := xml.Unmarshal(req.RequestBuffer, &req.Request); err != nil {
+	// decode like the service provider decodes what it verifies: namespace declarations and
+	// attributes of foreign namespaces are not the unqualified attributes the checks below read
+	if err := xml.NewTokenDecoder(samlAttributesOnly{xml.NewDecoder(bytes.NewReader(req.RequestBuffer))}).Decode(&req.Request); err != nil {
 		return err
 	}
 
